@@ -49,6 +49,10 @@ CHECKS = {
                 technique="bounded-exhaustive enumeration of header composite layouts (permutations, optional counters, extra members, gaps, refs, integer types) x levels x numInGroup arguments; the real fillers run inside complete encode scripts and the whole buffer is compared with the reference model after every op",
                 text="Every messageHeader layout of the grammar (own schema each) and every group dimension layout is compiled by the tree's sbeppc; fill_message_header / fill_group_header (with 0, 1, max-1, max and the real count) are executed and the buffer must equal the model's header values at the layout's offsets/types/byte order with every other byte (gaps, extra members, canary) unchanged; the returned view must be the header.",
                 note="Trusted: compilers, reference model. numInGroup as <ref> is outside the alphabet (sbeppc aborts on it: C09)."),
+    "C18": dict(category="exploration", design_ref="DESIGN.md 5 / C18",
+                technique="bounded-exhaustive enumeration over the entities of generated schemas: every value-valued trait printed by a generated TU and diffed against records derived from the IR; type-valued traits, tag lists, value_type/traits_tag round trips and tag-kind predicates as static_asserts compiled on each cell",
+                text="For kinds (plain and attribute-rich), a stride of the catalogue and the header/dimension layout schemas, every entity's expected trait record is derived from the IR with the SBE rules (offsets, block lengths, presence, default min/max/null, lengths, ids, versions) and compared with what the emitted traits return; lists of children must be exactly the entity's children in schema order; each tag satisfies exactly its own kind predicate.",
+                note="Trusted: compilers, the derivation rules in vlib/gen/traitx.py. Out of alphabet: presence=optional on enum/set fields, offset on public types; value_type_tag of constant fields is not demanded."),
     "C19": dict(category="model_checking", design_ref="DESIGN.md 5 / C19",
                 technique="history exploration of the real visitors: a recording visitor is run to completion and with 'return true at the k-th callback' for every k; the event log (callback kind, member tag type, value bits / view address) is compared with the model's list, for kinds + catalogue schemas",
                 text="For every image of the bounded space the complete callback sequence and every prefix (stop at the k-th callback, all k) are executed on the generated visit entry points; each non-constant member must be reported once, in schema order, with its own tag type (checked through a generated tag-type -> path overload set) and the named accessor's value/address; entries in index order; enums report their value tag or unknown, sets every choice with its bit; after a complete visit the cursor is at the end of the visited view. Also under extended wire block lengths.",
